@@ -131,6 +131,35 @@ def run(ctx):
                                                 "what": "the next-scheduler-time rule of the simulator differs from the model the C05 theorems are about"})
     except core.ModelEvalError as e:
         ctx.broken.append({"kind": "correspondence", "name": "S-nextsched", "detail": str(e)[-500:]})
+    # ---- S-sim-branches: conditionals WITHOUT a join under work-conserving policies (kept out of the shared S-sim family, whose
+    # planners and fuzzing policy would meet known finding F42 on them): termination and the liveness clause only
+    brng = random.Random("C05-branches/%s" % ctx.seed)
+    bworlds = []
+    while len(bworlds) < (16 if ctx.tier == "quick" else 150):
+        bw = simgen.gen_branch_world(brng)
+        if "zero_runtime" not in simgen.signature(bw) and feasible_world(bw):
+            bworlds.append(bw)
+    bruns = simcommon.run_worlds(bworlds)
+    bfail = 0
+    taken = {"then": 0, "else": 0}
+    for i, (bw, br) in enumerate(zip(bworlds, bruns)):
+        msgs = mon_c05(br, bw) if br["log"] else (["no observation: %s" % br["status"]] if br["status"] not in ("harness-timeout",) else [])
+        for f in br.get("final", []):
+            if f[1] == "COMPLETED" and f[0].split("@")[0] in ("L", "Lz"):
+                taken["then"] += 1
+            if f[1] == "COMPLETED" and f[0].split("@")[0] in ("R", "R1", "Rz"):
+                taken["else"] += 1
+        if msgs:
+            bfail += 1
+            if bfail <= 3:
+                ctx.violation("branch_world%d" % i, {"stream": "S-sim-branches monitor", "failures": msgs[:5], "world": bw,
+                                                    "run_status": br["status"],
+                                                    "what": "a feasible world with a join-less conditional under a work-conserving policy "
+                                                            "did not terminate properly or ended with unfinished runnable work"})
+    ctx.cov["streams"]["S-sim-branches:impl-monitor"] = {"cases": len(bworlds), "failing": bfail}
+    ctx.cov["input_distribution"]["branch_worlds_completed_branch_tasks"] = taken
+    ctx.rules.append("S-sim-branches: feasible worlds under EDF/FIFO/LSF (nothing cancels, timeout 10^6) whose first job graph is a "
+                     "conditional without a join (each branch ends in its own sink) or with a side output inside a branch")
     # ---- known finding F8: a strategy with runtime 0 livelocks simulate()
     for k in core.load_known():
         if k.get("status") == "known" and k.get("property") == "C05" and k.get("id") == "F8":
